@@ -5,7 +5,7 @@ import re
 import sys
 
 from .. import model
-from ..core import Acc, Violation, run_hypothesis, shard_seed, describe_exc, VERIF_DIR
+from ..core import Acc, Violation, run_hypothesis, shard_seed, describe_exc, VERIF_DIR, clear_lru_caches
 
 PROPERTY = 'C12'
 RULE = ('filters are built by placing payloads - calls/attribute reads/comprehensions/lambdas on canary objects planted in '
@@ -183,10 +183,17 @@ def probe_grid():
 IDENT = re.compile(r'[A-Za-z_][A-Za-z0-9_]*')
 
 
+def _generated(name, value):
+    """the library's own compiled-filter entries in its module namespace: functions compiled from a string (no source
+    file), under a name that is not a canary.  (What such a function may refer to is checked on the exec/compile events.)"""
+    code = getattr(value, '__code__', None)
+    return code is not None and code.co_filename.startswith('<') and 'zzcanary' not in name
+
+
 def snapshot():
     import hszinc.grid_filter as gf
     return {
-        'gf': frozenset(k for k in vars(gf) if not k.startswith('_gen_hsfilter_')),
+        'gf': frozenset(k for k, v in list(vars(gf).items()) if not _generated(k, v)),
         'builtins': frozenset(vars(builtins)),
         'modules': frozenset(sys.modules),
         'environ': dict(os.environ),
@@ -213,7 +220,7 @@ def check(case):
     raw = model.raw_snapshot(g)
     # every evaluation compiles: drop the compiled-filter cache (state must not leak between cases)
     import hszinc.grid_filter as gf
-    gf._filter_function.cache_clear()
+    clear_lru_caches(gf)
     snap = snapshot()
     HITS[:] = []
     EVENTS[:] = []
@@ -230,6 +237,11 @@ def check(case):
             # nothing - in particular no interpreter-wide setting - is changed by the attempt
             if text.count('(') >= 100:
                 outcome = 'rejected'
+            else:
+                exc = e
+        except Exception as e:  # noqa
+            if (type(e).__module__ or '').split('.')[0] == 'hszinc':
+                outcome = 'rejected'        # an error class of the library's own is a parse error too
             else:
                 exc = e
         except BaseException as e:  # noqa
@@ -393,6 +405,8 @@ def check_must_reject(text):
     except (pyparsing.ParseBaseException, ValueError):
         return
     except BaseException as e:  # noqa
+        if isinstance(e, Exception) and (type(e).__module__ or '').split('.')[0] == 'hszinc':
+            return
         raise Violation('non-parse-error', case, 'invalid filter raised %s instead of a parse error' % describe_exc(e), ('must-reject',))
     raise Violation('invalid-filter-accepted', case, 'a text that is not a filter was accepted and evaluated', ('must-reject',))
 
